@@ -1,6 +1,7 @@
 # C16 -- declarative codec: the laws of every building block (bit-field
 # pair, integer pair, length exactness, error discipline, presence/length
-# protocol, ownership of the decoded sequence) and of compositions of them.
+# protocol, ownership of the decoded sequence, closure of sequences over items
+# of different lengths) and of compositions of them.
 #
 # Two layers:
 #  (1) SEMANTIC rules (decisive).  codec.py is folded by the checker's own
@@ -43,7 +44,9 @@ EXPLANATION = (
     "with spares and fixed values incl. 0, explicit lengths; 5 order spellings), 27 integer fields (all ten classes, widths 1..8 octets, "
     "five offset/mult transforms, boundary raws incl. 2**53+1 and the first unencodable values), the Field length/presence protocol with "
     "probe fields and callbacks, ten compositions (TLV, optional fields, nested envelopes to depth 3, sequences, sequences in sequences), "
-    "eleven nested-length cases, error wrapping for every exception class a field can raise (also below nested envelopes and sequence "
+    "eleven nested-length cases, sequences whose items differ in length (five item definitions with optional / callback-length parts, every "
+    "presence pattern of 1..4 items incl. the optional part absent in the last item; stand-alone, as flexible tail and behind a length "
+    "callback; truncations), error wrapping for every exception class a field can raise (also below nested envelopes and sequence "
     "items), repeated decodes of one Sequence/envelope (result ownership), and the toolkit's own definitions (trxd_proto) - and every "
     "outcome (octets, values, octets consumed, error class, non-termination) is compared with a reference model of the documented "
     "behaviour. Symbolic layer (proof attempts for all inputs on the known shape): path outcomes of every method as exprnf terms, complete "
@@ -3631,8 +3634,9 @@ class RInt(RField):
             raise RefErr("OverflowError", "EncodeError")
 
     def __repr__(self):
-        return "%s(%r%s%s%s)" % (self.cls, self.name, ", len=%d" % self.kwlen if self.kwlen is not None else "",
-                                 ", offset=%d" % self.offset if self.offset else "", ", mult=%d" % self.mult if self.mult != 1 else "")
+        return "%s(%r%s%s%s%s)" % (self.cls, self.name, ", len=%d" % self.kwlen if self.kwlen is not None else "",
+                                   ", offset=%d" % self.offset if self.offset else "", ", mult=%d" % self.mult if self.mult != 1 else "",
+                                   ", get_pres=<cb>" if self.pres else "")
 
 
 class RBuf(RField):
@@ -3776,7 +3780,8 @@ class REnvF(RField):
         return self.env.encode(self.value(vals))
 
     def __repr__(self):
-        return "%r.f(%r%s%s)" % (self.env, self.name, ", len=%d" % self.len if self.len else "", ", get_len=<cb>" if self.getlen else "")
+        return "%r.f(%r%s%s%s)" % (self.env, self.name, ", len=%d" % self.len if self.len else "", ", get_len=<cb>" if self.getlen else "",
+                                   ", get_pres=<cb>" if self.pres else "")
 
 
 class RSeqF(RField):
@@ -4521,6 +4526,90 @@ def w_ownership(lab, fams):
         fam.fail("a witness definition or its evaluation does not terminate (step budget exhausted)")
 
 
+# ---- sequences whose items differ in length (C16.R8) -----------------------------------------------------------
+
+def _seq_item_defs():
+    """(item definition, flags per item, value of item number k under flag p): every definition has at least one
+    mandatory octet (an item that consumes nothing is outside the domain) and an optional / variable part whose
+    presence or length is driven by an earlier field of the same item"""
+    return [
+        (REnv([RBits([("ext", 1, None), ("id", 7, None)]), RInt("Uint16BE", "val"),
+               RInt("Uint32LE", "stamp", pres=lambda v: bool(v["ext"]))], name="Item"), 2,
+         lambda k, p: dict({"ext": p, "id": 0x10 + k, "val": 0x0100 * k + 0xff}, **({"stamp": 0xdeadbe00 + k} if p else {}))),
+        (REnv([RInt("Uint", "k"), RBuf("opt", 3, pres=lambda v: bool(v["k"] & 1)), RInt("Int16LE", "z")], name="Item"), 2,
+         lambda k, p: dict({"k": 2 * k + p, "z": -k - 1}, **({"opt": bytes([0x41 + k]) * 3} if p else {}))),
+        (REnv([RBits([("a", 1, None), ("b", 1, None), ("id", 6, None)]), RInt("Uint16BE", "p", pres=lambda v: v["a"] == 1),
+               RBuf("q", 4, pres=lambda v: v["b"] == 1)], name="Item"), 4,
+         lambda k, p: dict({"a": p & 1, "b": p >> 1, "id": 5 + k}, **dict(([("p", 0x0102 + k)] if p & 1 else []) +
+                                                                        ([("q", bytes([0x61 + k]) * 4)] if p >> 1 else [])))),
+        (REnv([RInt("Uint", "n"), RBuf("v", getlen=lambda v, d: v["n"])], name="Item"), 2,
+         lambda k, p: {"n": 3 * p, "v": bytes([0x30 + k]) * (3 * p)}),
+        (REnv([RInt("Uint", "k"), REnvF(REnv([RInt("Uint16BE", "x")], name="Inner"), "in", 2, pres=lambda v: v["k"] >= 128)], name="Item"), 2,
+         lambda k, p: dict({"k": 128 * p + k}, **({"in": {"x": 0x0a00 + k}} if p else {}))),
+    ]
+
+
+def w_seq_closure(lab, fams):
+    """C16.R8 - decides the round-trip clause of the property ("decoding the encoding of in-range values returns those
+    values, re-encoding a decoded message reproduces the canonical octets") for the building block `sequence` combined
+    with `optional and variable-length fields`: the items of one sequence may differ in length, so Sequence.from_bytes
+    must accept every octet string Sequence.to_bytes produces - in particular one whose LAST item is shorter than the
+    sum of the fixed field lengths of its definition because an optional field is absent - stand-alone, as the
+    flexible last field of an envelope and as a field whose length comes from a callback (followed by a further
+    field).  Truncated encodings are compared with the reference as well (a cut at an item boundary is a shorter
+    sequence, any other cut is rejected with DecodeError)."""
+    for item, nflag, mk in _seq_item_defs():
+        fam = Family("C16.R8", "Sequence", "sequence of %r, items of different lengths in one sequence (every presence pattern of 1..%d items, "
+                     "the optional part absent in the last item included): Sequence.to_bytes is the concatenation of the items' octets, "
+                     "Sequence.from_bytes(to_bytes(items)) returns the items - stand-alone, as the flexible last field of an envelope and as "
+                     "a field whose length a callback gives - re-encoding reproduces the octets, a truncated encoding is a shorter sequence "
+                     "or a DecodeError" % (item, 4 if nflag == 2 else 2))
+        fams.append(fam)
+        try:
+            sf = RSeqF(item, "items")
+            s = sf.build_seq(lab)
+            tail = REnv([RInt("Uint", "hdr"), RSeqF(item, "items")], name="Tail")
+            msg = REnv([RInt("Uint", "tag"), RInt("Uint", "len", getval=lambda v, it=item: sum(len(it.encode(i)) for i in v["items"])),
+                        RSeqF(item, "items", getlen=lambda v, d: v["len"]), RInt("Uint16BE", "crc")], name="Msg")
+            e_tail, e_msg = tail.build(lab), msg.build(lab)
+            for n in range(1, (4 if nflag == 2 else 2) + 1):
+                for pat in itertools.product(range(nflag), repeat=n):
+                    items = [mk(k, p) for k, p in enumerate(pat)]
+                    what = "presence pattern %s" % (pat,)
+                    enc = ref_out(lambda: sf.enc({"items": items}))
+                    if enc[0] != "ok" or ref_out(lambda: sf.dec_list(enc[1])) != ("ok", items):
+                        raise AnalysisError("internal: reference model is not an inverse pair on a sequence of %r" % (item,))
+                    octets = enc[1]
+                    fam.check("%s: Sequence.to_bytes(%s)" % (what, _short_txt(items, 200)),
+                              lab.run(lambda: norm(lab.meth(s, "to_bytes", clone_vals(items)))), enc)
+                    fam.check("%s: Sequence.from_bytes(%r) [= to_bytes(%s)]" % (what, octets, _short_txt(items, 200)),
+                              lab.run(lambda: norm(lab.meth(s, "from_bytes", octets))), ("ok", items))
+                    if n == 2:
+                        for cut in range(1, min(4, len(octets)) + 1):
+                            data = octets[:-cut]
+                            fam.check("%s: Sequence.from_bytes(%r) [encoding truncated by %d]" % (what, data, cut),
+                                      lab.run(lambda: norm(lab.meth(s, "from_bytes", data))), ref_out(lambda: sf.dec_list(data)))
+                    if n > 3:
+                        continue
+                    for ref, e, v in ((tail, e_tail, {"hdr": 0x7e, "items": items}), (msg, e_msg, {"tag": 1, "items": items, "crc": 0xbeef})):
+                        want = ref_out(lambda: ref.encode(v))
+                        back = dec_pair(ref, want[1]) if want[0] == "ok" else None
+                        if back is None or back[0] != "ok" or back[1][1] != len(want[1]) or any(back[1][0].get(k) != x for k, x in v.items()):
+                            raise AnalysisError("internal: reference model is not an inverse pair on %r" % (ref,))
+                        fam.check("%s: %s.to_bytes() of %s" % (what, ref.name, _short_txt(v, 200)), lab.e_enc(e, v), want)
+                        got = lab.e_dec(e, want[1])
+                        fam.check("%s: %s.from_bytes(%r) [= to_bytes() of %s]" % (what, ref.name, want[1], _short_txt(v, 200)), got, back)
+                        if got[0] == "ok":
+                            fam.check("%s: %s.to_bytes() of what from_bytes(%r) returned" % (what, ref.name, want[1]),
+                                      lab.run(lambda: norm(lab.meth(e, "to_bytes"))), want)
+        except MachUnknown as ex:
+            fam.unknown = str(ex)
+        except PyRaise as ex:
+            fam.fail("a witness definition or its evaluation raises %s outside any modelled outcome" % ex.cls_name)
+        except MachTimeout:
+            fam.fail("a witness definition or its evaluation does not terminate (step budget exhausted)")
+
+
 # ---- definitions found in the toolkit (evaluated value-level against the block semantics) ------------------
 
 class RIntSpec(RInt):
@@ -4656,7 +4745,7 @@ def w_toolkit_defs(lab, fams):
             fam.fail("evaluating the definition does not terminate (step budget exhausted)")
 
 
-WITNESS_GROUPS = (w_bits, w_ints, w_length, w_nesting, w_errors, w_presence, w_ownership, w_toolkit_defs)
+WITNESS_GROUPS = (w_bits, w_ints, w_length, w_nesting, w_errors, w_presence, w_ownership, w_seq_closure, w_toolkit_defs)
 
 
 def run_witnesses(L, repo):
@@ -4815,29 +4904,37 @@ def commit_witnesses(L, V):
         L.extra.setdefault("notes", []).append("witness evaluation incomplete: %s" % V.unknown_text())
     else:
         L.floor("C16.R7", "witness families evaluated", n, 150)
+    # C16.R8 has no symbolic counterpart: a family of it that cannot be evaluated withholds the verdict
+    r8 = [f for f in V.fams if f.rule == "C16.R8"]
+    r8_open = [f for f in r8 if f.unknown is not None and f.bad is None]
+    for f in r8_open:
+        L.deficits.append("w_seq_closure: a sequence witness family could not be evaluated (%s)" % _short_txt(f.unknown, 200))
+    if not V.error and not r8_open:
+        L.floor("C16.R8", "item definitions with an optional / variable part evaluated in sequences", len(r8), 5)
+        L.floor("C16.R8", "sequence round trips and truncations evaluated (items of different lengths)", sum(f.n for f in r8), 850)
+
+
+def witness_verdict(L, repo):
+    """semantic rule group: the witness evaluation as a whole (an evaluation that cannot be carried out is recorded in
+    the verdict, the symbolic groups then decide whether a verdict is possible without it)"""
+    try:
+        return Verdict(r7_witnesses(L, repo))
+    except AnalysisError as e:
+        return Verdict(None, error=str(e))
 
 
 def run(L, tier):
-    from report import STAGE_FAILED
     repo = Repo(L.repo)
     L.unit(F)
-    try:
-        V = Verdict(r7_witnesses(L, repo))
-    except AnalysisError as e:
-        V = Verdict(None, error=str(e))
-    symbolic(L, V, r1_set_init, repo)
-    symbolic(L, V, r1_field_pair, repo)
-    symbolic(L, V, r1_set_pack, repo)
-    symbolic(L, V, r2_pair, repo)
-    symbolic(L, V, r2_class_table, repo)
-    presence = symbolic(L, V, r3_field, repo)
-    symbolic(L, V, r3_envelope, repo)
-    symbolic(L, V, r3_sequence, repo)
-    symbolic(L, V, r3_nested, repo)
-    symbolic(L, V, r4_errors, repo)
-    symbolic(L, V, r4_classes, repo)
-    symbolic(L, V, r4_spare_buf, repo)
-    symbolic(L, V, r5_presence, repo, presence)
-    symbolic(L, V, r5_defaults, repo)
-    symbolic(L, V, r6_ownership, repo)
-    commit_witnesses(L, V)
+    V = L.stage(witness_verdict, L, repo)
+    # every group below is independent: an AnalysisError in one of them is deferred (Ledger.stage / symbolic) and a
+    # counterexample or violation recognised by another one is still reported
+    for fn in (r1_set_init, r1_field_pair, r1_set_pack, r2_pair, r2_class_table):
+        L.stage(symbolic, L, V, fn, repo)
+    presence = L.stage(symbolic, L, V, r3_field, repo)
+    for fn in (r3_envelope, r3_sequence, r3_nested, r4_errors, r4_classes, r4_spare_buf):
+        L.stage(symbolic, L, V, fn, repo)
+    L.stage(symbolic, L, V, r5_presence, repo, presence)
+    L.stage(symbolic, L, V, r5_defaults, repo)
+    L.stage(symbolic, L, V, r6_ownership, repo)
+    L.stage(commit_witnesses, L, V)
